@@ -23,7 +23,7 @@ EXPLANATION = (
     " (C11.2) workbooks loaded with ignore lists end to end; two loads in one process; (C11.7) also formulas stored with layout, sheet titles with runs of blanks, names scoped to one sheet; (C11.8) the replacement openpyxl reader hands its parser every parameter openpyxl's own reader (read from the installed source) hands over.")
 NOT_DECIDED = ('the SpreadsheetML storage forms, shared-formula expansion and the patched worksheet reader (openpyxl '
                'behaviour), equality of values')
-TRUSTED = ['openpyxl cell attributes (.coordinate, .data_type, .value) and defined_names mapping', 'workbook scenarios: pandas storage of range arrays as row-major rows, numpy on Python numbers (IEEE results, 64-bit integer wrap), dateutil.parser.parse rejecting texts that are no dates, openpyxl address arithmetic, inspect.signature built from the FunctionDef']
+TRUSTED = ['the installed openpyxl source (worksheet/_reader.py) as the reference of what WorksheetReader hands to WorkSheetParser', "openpyxl's sheet_state, worksheets, per-sheet defined_names, epoch attributes", 'openpyxl cell attributes (.coordinate, .data_type, .value) and defined_names mapping', 'workbook scenarios: pandas storage of range arrays as row-major rows, numpy on Python numbers (IEEE results, 64-bit integer wrap), dateutil.parser.parse rejecting texts that are no dates, openpyxl address arithmetic, inspect.signature built from the FunctionDef']
 
 
 class _Book(PyModel):
